@@ -90,6 +90,8 @@ def check(report: Report, repo: Repo) -> None:
     try:
         it.events = []
         o = it.call_function(cls, [E, M], {})
+        eff = [e for e in it.events if e.kind == "assert-side-effect"]
+        report.add("R4-default-srbits", f"{cpi}::assert-free", not eff, "the default number of random bits is not set from inside the condition of an `assert` (under `python -O` the statement vanishes and srbits stays 0: rounding becomes deterministic)", [f"{e['effects']} at {e.where}" for e in eff], [], nontrivial=False)
         report.add("R4-default-srbits", f"{cpi}::default", isinstance(o, Obj) and TM.expr_equal(o.attrs.get("srbits"), 23 - M) is True and o.attrs.get("rounding") == "stochastic", "FPFormat(E, M): stochastic rounding using all 23-M discarded bits", fmt(getattr(o, "attrs", None)), "srbits = 23 - M")
         o = it.call_function(cls, [E, M, "stochastic", SR], {})
         report.add("R4-default-srbits", f"{cpi}::explicit", isinstance(o, Obj) and TM.expr_equal(o.attrs.get("srbits"), SR) is True, "an explicit srbits is kept", fmt(getattr(o, "attrs", None)), "srbits = srbits")
